@@ -65,7 +65,11 @@ CLAIM = dict(
     "((h, w, 1) decoded arrays) is reached only through the patched decoder (cv2.imdecode never returns that shape). Outside "
     "the literal statement and NOT preserved: OpticalImage.original_dtype is not part of metadata(); an image converted to "
     "float after construction reloads with original_dtype = float, so a later write() of the reloaded object raises "
-    "NotImplementedError where the saved object could write.",
+    "NotImplementedError where the saved object could write. FAILING INPUTS: round-trip data / class / metadata VALUES, colours "
+    "within half a quantisation step (integer-held) after write -> imread, save -> read_correction raising, output of the reloaded "
+    "correction not bit-identical, a class whose default-constructed saved file read_correction really cannot read; differing "
+    "stored fields with identical output and static dispatch-table disagreements are TIE-BROKEN marks; write() modifying the "
+    "image and type-only differences are observations.",
     note="bit-identical pixel data / values after a round trip rest on the observed round trips; the theorems cover the "
     "metadata round trip modulo value fidelity of the serialiser, and DarSIA's dispatch / field bookkeeping",
     technique="Lean 4 proof (parametric round-trip theorem over generated key tables; decide) + G1 tabulation + G2 AST extraction; "
@@ -435,13 +439,17 @@ def meta_diff(a, b):
         return "keys:" + ",".join(sorted(set(a) ^ set(b)))
     for k in a:
         x, y = a[k], b[k]
+        # VALUE comparison ("identical metadata"): 3600 and 3600.0, list and tuple agree; None / datetime / number stay apart by ==
+        if (x is None) != (y is None):
+            return k
         if isinstance(x, np.ndarray) or isinstance(y, np.ndarray):
-            if type(x) is not type(y) or x.shape != np.shape(y) or not np.array_equal(x, y):
+            if np.shape(x) != np.shape(y) or not np.array_equal(np.asarray(x), np.asarray(y)):
                 return k
-        elif isinstance(x, list) or isinstance(y, list):
-            if type(x) is not type(y) or len(x) != len(y) or any((p != q) or (type(p) is not type(q)) for p, q in zip(x, y)):
+        elif isinstance(x, (list, tuple)) or isinstance(y, (list, tuple)):
+            if not isinstance(x, (list, tuple)) or not isinstance(y, (list, tuple)) or len(x) != len(y) or any(
+                    ((p is None) != (q is None)) or bool(np.any(p != q)) for p, q in zip(x, y)):
                 return k
-        elif x != y or type(x) is not type(y):
+        elif bool(np.any(x != y)):
             return k
     return None
 
@@ -590,14 +598,19 @@ def oracle_write(ctx, d, tmp):
         # integer RGB array `arr` (or, held as integers with color_space="BGR", from `arr` read as B, G, R)
         true_rgb = arr[..., ::-1] if (held == "integer" and space == "BGR") else arr
         want = skimage.img_as_float(true_rgb).astype(np.float64)
-        # integer data: exact; float data: one quantisation step of the file (plus the float32 colour conversion)
-        tol = 0.0 if held == "integer" else 1.5 / (255.0 if dtype == np.uint8 else 65535.0) + 1e-6
+        # integer data: half a quantisation step of the file (every wrong colour is at least one step away; a reader that
+        # normalises with /255.0 or in float32 instead of skimage's *(1/255) returns the same colours); float data: one and a
+        # half steps (plus the float32 colour conversion)
+        step = 1.0 / (255.0 if dtype == np.uint8 else 65535.0)
+        tol = 0.5 * step if held == "integer" else 1.5 * step + 1e-6
         dev = float(np.max(np.abs(res.img - want))) if res.img.shape == want.shape else None
         if dev is None or dev > tol:
             ctx.fail(f"C18:write-imread({sig},{ext}):colours", f"colours differ after write -> imread (max deviation {dev}, allowed {tol:.3g})",
                      dict(case, max_dev=dev, tolerance=tol, image=np.asarray(img.img).tolist() if img.img.size <= 36 else None))
-        if not np.array_equal(img.img, held_before):
-            ctx.fail("C18:write-modifies-image", "OpticalImage.write modified the image", case)
+        if dev is not None and dev <= tol:
+            ctx.cov["write_imread_max_dev_in_steps"] = max(ctx.cov.get("write_imread_max_dev_in_steps", 0.0), dev / step)
+        if not np.array_equal(img.img, held_before):  # not a clause of the round trip: recorded only
+            ctx.cov["observation_write_modifies_image"] = ctx.cov.get("observation_write_modifies_image", 0) + 1
 
 
 def correction_cases(ctx, d, photo):
@@ -810,17 +823,19 @@ def oracle_corrections(ctx, d, tmp, table=None):
             st["round_tripped"] += 1
             if hasattr(c, "return_config"):
                 g1, g2 = quiet(c.return_config), quiet(c2.return_config)
-                if not isinstance(g1, Raised) and (isinstance(g2, Raised) or not deep_equal(g1, g2)):
-                    ctx.fail(f"C18:correction({name}):config-differs", f"return_config() of the reloaded correction differs: {g1!r} vs {g2!r}"[:400], case)
+                if not isinstance(g1, Raised) and (isinstance(g2, Raised) or not deep_equal_loose(g1, g2)):
+                    # the statement asks for identical OUTPUT (judged below); the stored fields are the model's tie (reload_equiv)
+                    ctx.mark("TIE-BROKEN", {"correspondence": f"reload_equiv fields: return_config() of {name}", "original": repr(g1)[:200],
+                                            "reloaded": repr(g2)[:200], "case": repr(case)[:300]})
             reads = set((table or {}).get(name, {}).get("reads", [])) if table else None
             for attr, v in sorted(vars(c).items()):
                 if attr.startswith("_") or attr in ("cache", "use_cache", "cache_path") or not plain(v):
                     continue
                 if reads is not None and attr not in reads and attr != "config":
                     continue  # only the state correct_array reads (AST table) and the configuration
-                if not (hasattr(c2, attr) and deep_equal(v, getattr(c2, attr))):
-                    ctx.fail(f"C18:correction({name}):attribute({attr})", f"attribute {attr} of the reloaded correction differs: "
-                             f"{v!r} vs {getattr(c2, attr, '<missing>')!r}"[:400], case)
+                if not (hasattr(c2, attr) and deep_equal_loose(v, getattr(c2, attr))):
+                    ctx.mark("TIE-BROKEN", {"correspondence": f"reload_equiv fields: attribute {attr} of {name}", "original": repr(v)[:200],
+                                            "reloaded": repr(getattr(c2, attr, "<missing>"))[:200], "case": repr(case)[:300]})
             if name in ("CurvatureCorrection", "TypeCorrection") and np.asarray(arr).shape[0] > 20:
                 # an input of ANOTHER shape than the one the (persisted) grid cache was computed for
                 arr2 = np.ascontiguousarray(arr[5:-7, 3:-11])
@@ -1077,10 +1092,22 @@ def run(ctx):
         ctx.prove("C18")
         for name, c in t["corr"].items():
             if c["implementsSave"] and not (c["writesClassName"] and c["resolvable"]):
+                # the static reading (literal np.savez keywords, names in the reader module) is only a hint: the failing
+                # input is a default-constructed instance whose saved file read_correction really cannot read back
+                cls = getattr(d, name)
+                inst = quiet(cls)
+                pth = tmp / f"generic_{name}.npz"
+                back = inst if isinstance(inst, Raised) else quiet(lambda: (inst.save(pth), d.read_correction(pth))[1])
+                if isinstance(inst, Raised) or (not isinstance(back, Raised) and type(back) is type(inst)):
+                    ctx.mark("TIE-BROKEN", {"correspondence": "read_correction dispatch tables (static)", "correction": name,
+                                            "static": {"writesClassName": c["writesClassName"], "resolvable": c["resolvable"]},
+                                            "dynamic": "not constructible without arguments" if isinstance(inst, Raised) else "save -> read_correction works"})
+                    continue
                 ctx.fail(f"C18:read_correction({name}):not-readable-by-generic-reader",
                          f"{name}.save writes a file ({', '.join(c['saved'])}) that read_correction cannot dispatch "
                          f"(class_name written: {c['writesClassName']}, class known to read_correction: {c['resolvable']})",
-                         dict(correction=name, saved_fields=c["saved"], in_AnyCorrection=c["inUnion"]))
+                         dict(correction=name, saved_fields=c["saved"], in_AnyCorrection=c["inUnion"],
+                              observed=repr(back.exc) if isinstance(back, Raised) else f"read_correction returned {type(back).__name__}"))
         oracle_bytes(ctx, d)
         constructor_provenance(ctx, d)
         oracle_npz(ctx, d, tmp)
